@@ -704,15 +704,33 @@ pub fn c12_anyfault_leaf(env: &mut Env, leaf: &Leaf) {
 
 /// C12, damage half: frames of batch appends.
 pub fn c12_damage_leaf(env: &mut Env, leaf: &Leaf) {
+    c12_damage_leaf_with(env, leaf, 0);
+}
+
+/// `reach` > 0: every fault on a frame of the batch is combined with a second damaged place - a
+/// checksum failure in one of the `reach` frames written before it by another call (reduced menu on
+/// the batch frame: header fields, checksum field, first payload byte, whole payload).
+pub fn c12_damage_leaf_with(env: &mut Env, leaf: &Leaf, reach: usize) {
     let Some(d) = build_image(env, leaf) else {
         env.stats.diverged += 1;
         return;
     };
     env.stats.traces += 1;
     let dir = env.scratch2.path.clone();
-    for f in d.frames.iter().filter(|f| d.batch_ops.contains(&f.op)) {
+    for (fi, f) in d.frames.iter().enumerate().filter(|(_, f)| d.batch_ops.contains(&f.op)) {
         let batch = &d.op_records[&f.op];
-        let mut faults = frame_faults(&d, f);
+        // second damaged place (pairs only)
+        let mut companions: Vec<Option<(Patch, String)>> = vec![];
+        if reach == 0 {
+            companions.push(None);
+        } else {
+            for g in d.frames[..fi].iter().rev().filter(|g| g.op != f.op).take(reach) {
+                let bytes = &d.image[&g.file];
+                let off = if g.len > 7 { g.offset + 7 } else { g.offset };
+                companions.push(Some((vec![(g.file.clone(), off, vec![!bytes[off]])], format!("byte {} of the frame at {}+{} (written by op {}) inverted", off - g.offset, g.file, g.offset, g.op))));
+            }
+        }
+        let mut faults = if reach == 0 { frame_faults(&d, f) } else { reduced_frame_faults(&d, f).into_iter().map(|(p, s)| (p, json!({"kind": "reduced", "what": s}))).collect() };
         // header damage too: "every single-frame damage of the written batch"
         for ty in [0u8, 1, 2, 3, 4, 5, 0xFF] {
             faults.push((vec![(f.file.clone(), f.offset + 6, vec![ty])], json!({"kind":"frame-type","file":f.file,"frame_offset":f.offset,"new_type":ty,"frame_owner_op":f.op})));
@@ -720,7 +738,17 @@ pub fn c12_damage_leaf(env: &mut Env, leaf: &Leaf) {
         for len in [0usize, (f.len - 7).saturating_sub(1), f.len - 7 + 1, 0xFFFF] {
             faults.push((vec![(f.file.clone(), f.offset + 4, (len as u16).to_le_bytes().to_vec())], json!({"kind":"frame-len","file":f.file,"frame_offset":f.offset,"new_len":len,"frame_owner_op":f.op})));
         }
-        for (patch, descr) in faults {
+        for (patch0, descr0) in faults {
+          for comp in &companions {
+            let (patch, descr) = match comp {
+                None => (patch0.clone(), descr0.clone()),
+                Some((p2, s2)) => {
+                    let mut p = p2.clone();
+                    p.extend(patch0.iter().cloned());
+                    env.stats.count("fault_pairs", 1);
+                    (p, json!({"kind": "fault-pair", "first": s2, "second": descr0}))
+                }
+            };
             let Some(img) = apply_patch(&d.image, &patch) else { continue };
             env.stats.evaluations += 1;
             env.stats.transitions += 1;
@@ -749,6 +777,7 @@ pub fn c12_damage_leaf(env: &mut Env, leaf: &Leaf) {
                     case: case_json(leaf, descr),
                 });
             }
+          }
         }
     }
 }
